@@ -71,6 +71,23 @@ def run(ctx: Ctx):
                 j = tabrun.job_for(len(by_seed[sd]), lg, pv, conc, opts=tabrun.OPTS[0], mode='build', max_steps=ms)
                 g.append((sd, len(by_seed[sd]), f'opts=0 build premises={pn}')); by_seed[sd].append(j)
             groups.append((lg, g))
+    # corpus: arguments whose verdict once depended on the premise order / options (minimised past failures)
+    import json
+    from pytableaux.lang import Parser
+    from ..common import ROOT
+    pol = Parser('polish')
+    cdir = ROOT / 'corpus' / 'C09'
+    if cdir.exists():
+        for f in sorted(cdir.glob('*.json')):
+            for c in json.loads(f.read_text()):
+                prem, conc = [pol(x) for x in c['premises']], pol(c['conclusion'])
+                g = []
+                for pv, pn in ((prem, 'as-given'), (list(reversed(prem)), 'reversed')):
+                    for oi, mode in MODES[::3]:
+                        sd = seeds[0]
+                        j = tabrun.job_for(len(by_seed[sd]), c['logic'], pv, conc, opts=tabrun.OPTS[oi], mode=mode, max_steps=ms)
+                        g.append((sd, len(by_seed[sd]), f'opts={oi} {mode} premises={pn}')); by_seed[sd].append(j)
+                groups.append((c['logic'], g))
     outs = {sd: tabrun.run_jobs(js, order_seed=sd) for sd, js in by_seed.items()}
     stats = collections.Counter()
     # replay every run through the model
